@@ -245,7 +245,7 @@ def run_impl_chunk(exe, scenarios, timeout_per=20.0, env_extra=None):
             data = "".join("reset\n" + "\n".join(s) + "\n" for s in scenarios[i:]).encode()
             try:
                 p = subprocess.run([exe, root], input=data, stdout=subprocess.PIPE, stderr=subprocess.PIPE,
-                                   timeout=max(30.0, timeout_per * min(len(scenarios) - i, 50)), env=env, preexec_fn=_impl_limits)
+                                   timeout=max(30.0, timeout_per * min(len(scenarios) - i, 50), 1.0 * (len(scenarios) - i)), env=env, preexec_fn=_impl_limits)     # scales with the chunk: a loaded machine is not a hang
                 rc, so, se = p.returncode, p.stdout.decode("utf-8", "replace"), p.stderr.decode("utf-8", "replace")
                 timed_out = False
             except subprocess.TimeoutExpired as te:
